@@ -628,11 +628,22 @@ func (d *ColumnDetector) createColumnsFromGaps(fragments []text.TextFragment, ga
 		// Find which column this fragment belongs to
 		fragCenter := f.X + f.Width/2
 
+		assigned := false
 		for i := range columns {
 			if fragCenter >= boundaries[i].left && fragCenter < boundaries[i].right {
 				columns[i].Fragments = append(columns[i].Fragments, f)
+				assigned = true
 				break
 			}
+		}
+		if !assigned {
+			// Centre on or outside the outer boundaries (e.g. a zero-width fragment at
+			// the right edge): keep it in the nearest outer column instead of dropping it
+			idx := len(columns) - 1
+			if fragCenter < boundaries[0].left {
+				idx = 0
+			}
+			columns[idx].Fragments = append(columns[idx].Fragments, f)
 		}
 	}
 
